@@ -10,6 +10,7 @@ package main
 // IdleConnTimeout; long: both pass), with margins of ≥ 20 ticks around every threshold.
 
 import (
+	"errors"
 	"bytes"
 	"context"
 	"encoding/binary"
@@ -172,10 +173,20 @@ func (c *pconn) kill() {
 	c.dead = true
 	c.mu.Unlock()
 	if !already {
+		// how the reader learns of it: a clean EOF, or — on odd-numbered connections with no call
+		// outstanding — a read error of another kind (the peer's host vanished: ETIMEDOUT). The
+		// library treats both as the end of the connection; with calls outstanding the two differ
+		// in the error those calls get, so that case keeps the EOF the model describes.
+		var end error = io.EOF
+		c.mu.Lock()
+		if c.id%2 == 1 && len(c.held) == 0 {
+			end = errors.New("read: connection timed out")
+		}
+		c.mu.Unlock()
 		go func() {
 			defer close(c.eofSeen)
 			select {
-			case c.feed <- feedItem{err: io.EOF}:
+			case c.feed <- feedItem{err: end}:
 			case <-c.closeC:
 			case <-time.After(3 * time.Second):
 			}
@@ -231,6 +242,8 @@ type poolEnv struct {
 	maxConns, maxIdle int
 	transportClosed   bool
 	holdClose         bool
+	holdDial          bool          // dials park at dialGate (a slow dial) until `reldial`
+	dialGate          chan struct{}
 	closeGate         chan struct{}
 	parkedClose       int
 	nowait            map[int]bool
@@ -268,6 +281,15 @@ func (e *poolEnv) noteClose(c *pconn) {
 
 func (e *poolEnv) dial(network, address, codec string) (*rpc.Conn, error) {
 	e.mu.Lock()
+	hd, dg := e.holdDial, e.dialGate
+	e.mu.Unlock()
+	if hd {
+		select {
+		case <-dg:
+		case <-time.After(10 * time.Second):
+		}
+	}
+	e.mu.Lock()
 	if !e.up[address] {
 		e.dialFails++
 		e.mu.Unlock()
@@ -299,7 +321,7 @@ func (s poolScenario) header() string {
 
 func newPoolEnv(sc poolScenario) *poolEnv {
 	e := &poolEnv{up: map[string]bool{"A": true, "B": true, "C": true}, open: map[string]int{}, maxOpen: map[string]int{}, calls: map[int]*pcall{}, holdCall: map[int]bool{},
-		closeGate: make(chan struct{}), nowait: map[int]bool{}, atHook: map[int]bool{}, openStreams: map[int]chan struct{}{}}
+		dialGate: make(chan struct{}), closeGate: make(chan struct{}), nowait: map[int]bool{}, atHook: map[int]bool{}, openStreams: map[int]chan struct{}{}}
 	rpc.VerifHook = func(point string) {
 		if point != "transport.call.handed" {
 			return
@@ -564,6 +586,39 @@ func runPoolScenario(sc poolScenario) *poolResult {
 			e.mu.Unlock()
 			e.startCall(atoi(f[2]), f[1], "call", false)
 			time.Sleep(2 * time.Millisecond)
+		case "dialrace":
+			// dialrace A n k0: n callers (ids k0…) arrive while a dial to A is in progress (the dial is
+			// held at a gate for 30 ms); nothing is observed until all of them have returned
+			e.syncTick()
+			e.mu.Lock()
+			e.holdDial = true
+			e.mu.Unlock()
+			n, k0 := atoi(f[2]), atoi(f[3])
+			for j := 0; j < n; j++ {
+				e.startCall(k0+j, f[1], "call", false)
+				time.Sleep(2 * time.Millisecond)
+			}
+			time.Sleep(30 * time.Millisecond)
+			e.mu.Lock()
+			e.holdDial = false
+			close(e.dialGate)
+			e.dialGate = make(chan struct{})
+			e.mu.Unlock()
+			dl := time.Now().Add(3 * time.Second)
+			for time.Now().Before(dl) {
+				e.mu.Lock()
+				all := true
+				for j := 0; j < n; j++ {
+					if pc := e.calls[k0+j]; pc == nil || !pc.done {
+						all = false
+					}
+				}
+				e.mu.Unlock()
+				if all {
+					break
+				}
+				time.Sleep(200 * time.Microsecond)
+			}
 		case "holdclose":
 			e.mu.Lock()
 			e.holdClose = true
@@ -707,6 +762,9 @@ func (e *poolEnv) finish() {
 	e.holdClose = false
 	close(e.closeGate)
 	e.closeGate = make(chan struct{})
+	e.holdDial = false
+	close(e.dialGate)
+	e.dialGate = make(chan struct{})
 	for k := range e.holdCall {
 		e.holdCall[k] = false
 	}
@@ -832,7 +890,7 @@ func checkPool(sc poolScenario, r *poolResult) []connVerdict {
 			}
 		}
 		for _, id := range open {
-			if id != "" && !pooled[id] && !strings.Contains(strings.Join(sc.Actions, " "), "holdclose") {
+			if id != "" && !pooled[id] && !strings.Contains(strings.Join(sc.Actions, " "), "holdclose") && !strings.Contains(strings.Join(sc.Actions, " "), "dialrace") {
 				add("C15", "nothing-leaks-from-the-pool", "C15/open-but-not-pooled", fmt.Sprintf("after action %d (%s) connection %s is still open but is neither in an active list nor in an idle queue", i, r.actions[i], id))
 				break
 			}
@@ -928,6 +986,10 @@ func poolCorpus() []poolScenario {
 	mk("close-with-several-idle", 3, 3, "long A 1", "long A 2", "long A 3", "finish 1", "finish 2", "finish 3", "idle medium", "close", "idle short")
 	mk("close-with-several-idle-2", 2, 2, "long A 1", "long A 2", "long B 3", "long B 4", "finish 1", "finish 2", "finish 3", "finish 4", "idle medium", "close")
 	mk("multi-addr", 2, 1, "call A 1", "call B 2", "call C 3", "long A 4", "long A 5", "long B 6", "kill B", "call B 7", "finish 4", "finish 5", "idle medium", "revive B", "call B 8", "call A 9", "idle long", "close", "close")
+	// C13: callers that arrive while a dial to the same address is in progress (monitor-only: real time passes)
+	mk("concurrent-first-calls", 2, 2, "dialrace A 4 1", "idle short", "call A 5")
+	mk("concurrent-first-calls-limit-1", 1, 1, "dialrace A 3 1", "idle short", "call A 4", "kill A", "revive A", "dialrace A 2 5", "idle short", "call A 7")
+	mk("concurrent-first-calls-two-addresses", 2, 1, "dialrace A 3 1", "dialrace B 3 4", "idle short", "call A 7", "call B 8")
 	mk("close-gated-replacement", 1, 1, "call A 1", "kill A", "revive A", "holdclose", "callnb A 2", "callnb A 3", "relclose", "call A 4")
 	mk("monitor:ctx-sibling-1", 1, 1, "ctx")
 	mk("monitor:ctx-sibling-3", 1, 1, "ctx", "ctx", "ctx")
@@ -1111,7 +1173,7 @@ func runOnePool(i int, sc poolScenario) *scenarioOut {
 	}
 	res := runPoolScenario(sc)
 	retries := 0
-	timed := !strings.Contains(strings.Join(sc.Actions, " "), "holdclose")
+	timed := !strings.Contains(strings.Join(sc.Actions, " "), "holdclose") && !strings.Contains(strings.Join(sc.Actions, " "), "dialrace")
 	for timed && res.maxDrift > poolDriftBudget && retries < 4 {
 		// the machine stalled: the run says nothing about the timed behaviour; repeat it
 		res.env.finish()
@@ -1138,7 +1200,7 @@ func runOnePool(i int, sc poolScenario) *scenarioOut {
 	if disturbed {
 		out.Counters["timing.disturbed_left_out"]++
 	}
-	if !strings.Contains(strings.Join(sc.Actions, " "), "holdclose") && !disturbed {
+	if !strings.Contains(strings.Join(sc.Actions, " "), "holdclose") && !strings.Contains(strings.Join(sc.Actions, " "), "dialrace") && !disturbed {
 		// scenarios that hold a socket close for seconds are monitor-only (real time passes)
 		out.Streams = map[string][2][]string{"p": {inl, iml}}
 	}
